@@ -243,9 +243,9 @@ def msg_arg(msg):
     return ""
 
 
-DEV_ORDER = ["det", "det2", "mon1", "motor", "motor2", "pdet"]          # = DevOrderDef of the trace configurations
+DEV_ORDER = ["det", "det2", "mon1", "motor", "motor2", "pdet", "amotor", "apdet"]          # = DevOrderDef of the trace configurations
 DEV_KEYS = {"det": {"det"}, "det2": {"det2"}, "mon1": {"mon1"}, "motor": {"motor", "motor_setpoint"},
-            "motor2": {"motor2", "motor2_setpoint"}, "pdet": {"pdet"}}
+            "motor2": {"motor2", "motor2_setpoint"}, "pdet": {"pdet"}, "amotor": {"amotor", "amotor_setpoint"}, "apdet": {"apdet"}}
 GROUP_CMDS = ("set", "trigger", "stage", "unstage", "kickoff", "complete", "prepare", "wait")
 FUT_NAMES = {}     # id(awaitable factory) -> name, registered by the scenario runner
 
